@@ -129,18 +129,19 @@ Inductive cmd := CSet (item : N) (v : Z) | CMap (item : N) (o : mop).
 (* the harness's agent: items 0 / 2 are persistent lanes, the lifecycle mirrors them (shifted by one) into
    the stores 4 / 5; a remove of an absent key and commands to transient lanes reach no store *)
 Definition shift (o : mop) : mop := match o with MUpdate k v => MUpdate k (v + 1) | ow => ow end.
-Definition expected_step (c : content) (x : cmd) : content :=
+Definition expected_step (mirror : bool) (c : content) (x : cmd) : content :=
+  let also (e : lentry) (c' : content) := if mirror then store_step c' e else c' in
   match x with
-  | CSet 0 v => store_step (store_step c (LPut 0 v)) (LPut 4 (v + 1)%Z)
+  | CSet 0 v => also (LPut 4 (v + 1)%Z) (store_step c (LPut 0 v))
   | CMap 2 (MRemove k) =>
       match zlookup k (cmap c 2) with
-      | Some _ => store_step (store_step c (LMap 2 (MRemove k))) (LMap 5 (MRemove k))
+      | Some _ => also (LMap 5 (MRemove k)) (store_step c (LMap 2 (MRemove k)))
       | None => c
       end
-  | CMap 2 o => store_step (store_step c (LMap 2 o)) (LMap 5 (shift o))
+  | CMap 2 o => also (LMap 5 (shift o)) (store_step c (LMap 2 o))
   | _ => c
   end.
-Definition expected (cs : list cmd) : content := fold_left expected_step cs content0.
+Definition expected (mirror : bool) (cs : list cmd) : content := fold_left (expected_step mirror) cs content0.
 
 Definition persistent_item (i : N) : bool := (i =? 0) || (i =? 2) || (i =? 4) || (i =? 5).
 
@@ -150,7 +151,7 @@ Record crash := {
   cr_sync_v : Z; cr_sync_t : Z; cr_sync_m : list mop; cr_sync_tm : list mop                      (* told to a syncing remote *)
 }.
 
-Record pcase := { pc_cmds : list cmd; pc_log : list lentry; pc_crashes : list crash }.
+Record pcase := { pc_mirror : bool; pc_cmds : list cmd; pc_log : list lentry; pc_crashes : list crash }.
 
 Definition synced_map (ops : list mop) : list (Z * Z) := fold_left apply_mop ops [].
 Definition only_updates (ops : list mop) : bool := forallb (fun o => match o with MUpdate _ _ => true | _ => false end) ops.
@@ -173,7 +174,7 @@ Definition content_eqb (a b : content) : bool :=
 (* the implementation's history against the model: the store ends up with what the commands imply, and every
    restart holds what the store held at the crash point *)
 Definition p_corr_bad (cs : list (N * pcase)) : list N :=
-  map fst (filter (fun c => negb (content_eqb (replay (pc_log (snd c))) (expected (pc_cmds (snd c)))
+  map fst (filter (fun c => negb (content_eqb (replay (pc_log (snd c))) (expected (pc_mirror (snd c)) (pc_cmds (snd c)))
                                   && forallb (crash_ok (pc_log (snd c))) (pc_crashes (snd c)))) cs).
 
 (* the property oracle on the history: everything published had been handed to the store before *)
